@@ -7,7 +7,10 @@ def main():
     import radioactivedecay as rd
     req = json.load(sys.stdin)
     BADK = {"float": 1.5, "none": None, "tuple": ("H-3",), "list": ["H-3"], "bytes": b"H-3", "npstr": np.str_("H-3"),
-            "npint": np.int64(10030000), "bool": True}
+            "npint": np.int64(10030000), "bool": True,
+            # not str / int / Nuclide, but equal (and hash-equal) to a valid id that has been used successfully before
+            "floatid": 10030000.0, "npfloatid": np.float64(10030000.0), "fracid": __import__("fractions").Fraction(10030000),
+            "decid": __import__("decimal").Decimal(10030000), "symid": sympy.Integer(10030000)}
     BADA = {"nan": float("nan"), "neg": -1.0, "str": "1", "none": None, "complex": 1 + 0j, "npnan": np.float64("nan"),
             "negint": -3, "negrat": sympy.Rational(-1, 3), "symnan": sympy.nan, "symbol": sympy.Symbol("x"), "list": [1.0],
             "negnp": np.float32(-2.0)}
@@ -15,6 +18,9 @@ def main():
              "rat": sympy.Rational(2, 1), "symint": sympy.Integer(2), "frac": __import__("fractions").Fraction(2, 1)}
     out = []
     d = rd.DEFAULTDATA
+    # ordinary successful use first: the refusals below must not depend on what was asked before
+    rd.Nuclide(10030000); rd.Nuclide("H-3"); rd.Inventory({10030000: 1.0, "C-14": 2.0}, "num").remove(10030000)
+    rd.InventoryHP({10030000: 1.0}, "num"); d.half_life(10030000); d.half_life("H-3")
 
     def run(label, f):
         try:
